@@ -13,11 +13,11 @@ fn main() {
     let pm = if quick { programs(1, 2, false) } else { programs(2, 2, false) };
     ctx.run_slice(Slice::new(format!("programs[<={} Var::new interleaved, <=2 applications: {}]", if quick { 1 } else { 2 }, pm.len()), pm.len() as u64, |i, loc| check_program::<B>(&pm[i as usize], loc)));
     if !quick {
-        let p3 = programs(1, 3, false);
+        let p3 = programs_with(1, 3, false, 1);
         ctx.run_slice(Slice::new(format!("programs[<=1 Var::new, <=3 applications: {}]", p3.len()), p3.len() as u64, |i, loc| check_program::<B>(&p3[i as usize], loc)));
     }
     if !quick {
-        let pr = programs(2, 2, true);
+        let pr = programs_with(1, 2, true, 1);
         ctx.run_slice(Slice::new(format!("programs-all-operators[<=2 applications: {}]", pr.len()), pr.len() as u64, |i, loc| check_program::<B>(&pr[i as usize], loc)));
     }
     // a handle leaked out of the closure
@@ -29,7 +29,7 @@ fn main() {
     // forget / forget_monogamous on arbitrary lax terms: edge label 0 is the variable label
     let spec = if quick { Spec::lax(3, 1, 2, 2, 2, 1, 1, 1) } else { Spec::lax(3, 2, 2, 2, 2, 1, 1, 1) };
     let u = spec.universe();
-    let cap = if quick { u.count() } else { 30_000_000 };
+    let cap = if quick { u.count() } else { 15_000_000 };
     ctx.run_slice(Slice::new(format!("forget-terms[{} first {}]", spec.name(), cap.min(u.count())), u.count().min(cap), |i, loc| check_forget_term(&u.get(i), loc)));
     if quick {
         let spec2 = Spec { e_min: 2, ..Spec::lax(2, 2, 2, 2, 2, 1, 1, 0) };
